@@ -429,7 +429,16 @@ def run_c05(ck, ctx):
             for p in pk[1:]:
                 if p.rdh['link'] == pk[0].rdh['link'] and p.rdh['ver'] in (6, 7): p.rdh['ver'] = pk[0].rdh['ver']
             ck.count('schedule_inputs_with_mixed_rdh_versions')
-        inp = os.path.join(wd, f'in{si}.raw'); open(inp, 'wb').write(G.encode(pk))
+        raw = G.encode(pk)
+        if si % 2 == 1 or tier == 'quick':
+            # the input ends inside the payload of its last packet, whose header is faulty too: the reader thread's [E100] and the
+            # link validator's header errors concern the same packet (seeded C05-m5: both reported at the same offset, so that the
+            # stable sort leaves their order to the arrival order)
+            last = pk[-1]; last.rdh['stop'] = 2
+            raw = G.encode(pk); cut = len(last.encode()) - 64
+            if cut > 8: raw = raw[:len(raw) - R.randint(1, min(cut - 1, 40))]
+            ck.count('schedule_inputs_truncated_in_faulty_last_packet')
+        inp = os.path.join(wd, f'in{si}.raw'); open(inp, 'wb').write(raw)
         for m, fmt, mute in [(('all', 'its'), 'json', []), (('all', 'stave'), 'toml', []), (('all', None), 'json', ['-m']), (('all', 'its'), 'toml', ['-m'])]:
             outs, orders = {}, set()
             for sd in range(nsched):
@@ -445,6 +454,18 @@ def run_c05(ck, ctx):
                 outs.setdefault(key, sd)
                 if os.path.exists(tr):
                     orders.add(hash(tuple(l for l in open(tr) if 'collector:error' in l)))
+            if m == ('all', 'its') and fmt == 'json':
+                # schedules in which ONE hand-off is much slower than everything else (hook FASTPASTA_VERIF_HOLD): the forwarder of
+                # the reader's messages, the analysis thread, the dispatcher, the validators
+                for hold in ('forwarder:recv:25', 'analysis:recv:8', 'dispatcher:send:1', 'validator:recv:1'):
+                    sp = os.path.join(wd, f'st.{fmt}')
+                    if os.path.exists(sp): os.remove(sp)
+                    env = dict(os.environ, FASTPASTA_VERIF_HOLD=hold)
+                    r = subprocess.run([L.HOOKBIN, inp] + mode_args(m) + mute + ['-S', sp, '-D', fmt, '-E', '3'], stdout=subprocess.PIPE, stderr=subprocess.PIPE, env=env, timeout=600)
+                    errlines = [l for l in L.ANSI.sub('', r.stderr.decode('utf-8', 'replace')).split('\n') if l.startswith('ERROR')]
+                    stats = open(sp, 'rb').read() if os.path.exists(sp) else b''
+                    outs.setdefault((tuple(errlines), stats, r.returncode), 'hold ' + hold)
+                    ck.count('schedules_with_one_slow_handoff')
             distinct_orders += len(orders)
             ck.case(('sched', si, m, fmt, bool(mute))); ck.count('schedules_run', nsched); ck.count('distinct_arrival_orders', len(orders))
             if len(outs) > 1:
@@ -452,7 +473,7 @@ def run_c05(ck, ctx):
                 diff = 'error order' if ks[0][0] != ks[1][0] else ('statistics bytes' if ks[0][1] != ks[1][1] else 'exit status')
                 ck.violation('schedule', {'what': 'results depend on thread scheduling: ' + diff, 'args': mode_args(m) + mute + ['-D', fmt], 'distinct_outcomes': len(outs),
                                           'seeds': [outs[k] for k in ks[:2]], 'first_differing_errors': [(a, b) for a, b in zip(ks[0][0], ks[1][0]) if a != b][:3],
-                                          'input_hex': G.encode(pk).hex()[:400000], 'replay': f'FASTPASTA_VERIF_SCHED=<seed> {L.HOOKBIN} in.raw ' + ' '.join(mode_args(m) + mute)})
+                                          'input_hex': raw.hex()[:400000], 'replay': f'FASTPASTA_VERIF_SCHED=<seed> (or FASTPASTA_VERIF_HOLD=<point:ms> for a `hold` entry) {L.HOOKBIN} in.raw ' + ' '.join(mode_args(m) + mute)})
     ck.dist['distinct_arrival_orders_total'] = distinct_orders
     # ---- (3) very many errors from several concurrent validators (far beyond any 16-bit count): every run must store
     # every message, in the same (offset) order — whatever the validators' relative progress
